@@ -19,6 +19,76 @@ def scenario_groups(api, reject=False, more=False):
     return [H.Group([(name, True)], rules, name, b"ab\n", 0, inputs, label="faults:" + ("reject" if reject else "plain"))]
 
 
+def tables_afail(args):
+    import shutil
+    from . import c15
+    rs, tb, api = args
+    b = c15.build_scanner((rs, tb, api, [], "", False, True))
+    if "error" in b:
+        return {"error": b["error"] + ": " + b.get("stderr", "")[-200:]}
+    res = {"faults": 0, "viol": []}
+    try:
+        rc, out, err = c15.run_exe(b["wd"], ["afail", "t.tables"])
+        if rc != 0 or "AddressSanitizer" in err or "runtime error" in err:
+            res["viol"].append("driver ended abnormally rc=%s: %s" % (rc, err[-400:]))
+        for l in out.splitlines():
+            f = l.split(" ", 3)
+            if len(f) < 3 or f[0] != "A":
+                continue
+            rest = f[3] if len(f) > 3 else ""
+            ledger_bad = not rest.rstrip().endswith("|0") or (rest.split("|")[1].strip() if "|" in rest else "")
+            if f[1] in ("0", "end"):
+                if f[2] != "S" or ledger_bad:
+                    res["viol"].append("load without a fault: %s" % l)
+                continue
+            res["faults"] += 1
+            if f[2] == "S":
+                res["viol"].append("allocation request %s failed but yytables_fload reported success: %s" % (f[1], l))
+            elif f[2] == "F" and ledger_bad:      # after the fatal-error hook the program is expected to exit: what it still holds is not judged
+                res["viol"].append("after a failed allocation request %s: %s" % (f[1], l))
+    finally:
+        shutil.rmtree(b["wd"], ignore_errors=True)
+    return res
+
+
+EINVAL_SPEC = """%%option noyywrap %s
+%%%%
+a return 1;
+%%%%
+#include <errno.h>
+int main(void) {
+    int r1, e1, r2, e2; yyscan_t s = 0;
+    errno = 0; r1 = yylex_init((yyscan_t *)0); e1 = errno;
+    errno = 0; r2 = yylex_init_extra(0, (yyscan_t *)0); e2 = errno;
+    printf("%%d %%d %%d %%d\\n", r1 != 0, e1 == EINVAL, r2 != 0, e2 == EINVAL);
+    if (yylex_init(&s) == 0) yylex_destroy(s);
+    return 0;
+}
+"""
+
+
+def einval_probe(api):
+    import os, shutil, subprocess
+    from .. import build
+    flex = build.get_flex()
+    wd = H.mkscratch("c14e")
+    try:
+        open(os.path.join(wd, "e.l"), "w").write(EINVAL_SPEC % ("reentrant" if api == "R" else 'emit="c99" extra-type="void *"'))
+        rc, out, err = H.run_flex(flex, ["-o", "e.c", "e.l"], wd)
+        if rc:
+            return {"viol": "flex failed: " + err[-200:]}
+        c = subprocess.run(["gcc", "-w", "-fsanitize=address,undefined", "-o", "e.exe", "e.c"], cwd=wd, env=H.ENV, stdout=subprocess.PIPE, stderr=subprocess.PIPE)
+        if c.returncode:
+            return {"viol": "does not compile: " + c.stderr.decode("latin-1")[-300:]}
+        r = subprocess.run(["./e.exe"], cwd=wd, env=H.ENV, stdout=subprocess.PIPE, stderr=subprocess.PIPE, timeout=30)
+        if r.stdout.decode().strip() != "1 1 1 1":
+            return {"viol": "yylex_init(NULL) / yylex_init_extra(x, NULL) must return non-zero with errno EINVAL: got (nonzero, EINVAL, nonzero, EINVAL) = %s %s" % (
+                r.stdout.decode().strip(), r.stderr.decode("latin-1")[-200:])}
+        return {}
+    finally:
+        shutil.rmtree(wd, ignore_errors=True)
+
+
 def run(tier):
     ck = Check("C14", tier, "fault_enumeration")
     ck.flex()
@@ -71,6 +141,29 @@ def run(tier):
                          case={"cmd": v["cmd"], "viol": {k: v[k] for k in v if k not in ("spec", "tables", "cmd")}},
                          files={"s.l": v["spec"], "s_tables.h": v["tables"]})
         ck.sample({"scenario": job["tag"], "allocation_faults": sm.get("alloc_faults"), "read_faults": sm.get("read_faults"), "as_documented": sm.get("fault_ok")})
+    # yytables_fload: the k-th allocation request during the load fails, for every k (tables driver, ledger allocator, ASan)
+    from . import c15
+    tl = 0
+    for job, r in pmap(tables_afail, [(rs, tb, api) for rs in ("kw", "trail") for tb in (("-Cem", "-Cf") if tier == "quick" else ("-Cem", "-Cf", "-CFe", "-C"))
+                                      for api in ("NR", "R")], check=ck):
+        if "worker_exception" in r:
+            ck.broken.append("tables worker failed: %s" % r["worker_exception"])
+            continue
+        if r.get("error"):
+            ck.notes.append("tables scenario %s not built: %s" % (job, r["error"]))
+            continue
+        tl += r["faults"]
+        for what in r["viol"]:
+            ck.violation("C14:tables-load:alloc", "yytables_fload with a failing allocation (%s %s %s): %s" % (job + (what,)))
+    tot["fault_runs"] += tl
+    tot["alloc_faults"] += tl
+    ck.cov["tables_load_alloc_faults"] = tl
+    ck.guard(tl > 20, "allocation faults during yytables_fload hardly exercised: %d" % tl)
+    # the documented EINVAL returns of yylex_init / yylex_init_extra
+    for api, r in pmap(einval_probe, ["R", "C99"], check=ck):
+        if r.get("viol"):
+            ck.violation("C14:init:EINVAL:" + api, "%s: %s" % (api, r["viol"]))
+        ck.add("init_einval_probes")
     # C++ input path: the K-th underflow() of the streambuf throws, the istream goes bad(): every K x chunk size x scanner variant
     from .. import cxxstream
     cxx_cases = 0
